@@ -12,33 +12,47 @@ Proof.
   intro H. destruct (decode_encode_latin1 s raw H) as [Hd _]. rewrite <- Hd. unfold decode_latin1. rewrite map_length. reflexivity.
 Qed.
 
+Lemma has_zero_false l : has_zero l = false <-> Forall (fun c => c <> 0) l.
+Proof.
+  unfold has_zero. induction l as [|x l IH]; cbn [existsb]; [split; [constructor | reflexivity]|].
+  rewrite orb_false_iff, IH. split.
+  - intros [H1 H2]. constructor; [lia | exact H2].
+  - intro H. inversion H; subst. split; [lia | assumption].
+Qed.
+
 Theorem enc_keyword_ok kw b : enc_keyword kw = Ok b ->
-  decode_latin1 b = kw /\ bytes_ok b /\ (1 <= length kw <= 79)%nat /\ length b = length kw.
+  decode_latin1 b = kw /\ bytes_ok b /\ (1 <= length kw <= 79)%nat /\ length b = length kw /\ Forall (fun c => c <> 0) kw.
 Proof.
   unfold enc_keyword. destruct (encode_latin1 kw) as [raw|] eqn:E; [|discriminate].
   pose proof (encode_latin1_length kw raw E) as Hl. destruct (decode_encode_latin1 kw raw E) as [Hd Hb].
   destruct (Nat.eqb_spec (length raw) 0) as [H0|H0]; cbn [orb]; [discriminate|].
   destruct (Nat.ltb_spec 79 (length raw)) as [H1|H1]; [discriminate|].
-  intro H. injection H as <-. repeat split; try assumption; lia.
+  destruct (has_zero raw) eqn:Hz; [discriminate|].
+  intro H. injection H as <-. repeat split; try assumption; try lia.
+  apply has_zero_false in Hz. rewrite <- Hd. unfold decode_latin1. rewrite map_id. exact Hz.
 Qed.
 
-(* refusal is exact: empty, longer than 79, or a character outside Latin-1 *)
+(* refusal is exact: empty, longer than 79, a character outside Latin-1, or a NUL *)
 Theorem enc_keyword_refusal_exact kw :
-  (exists b, enc_keyword kw = Ok b) <-> ((1 <= length kw <= 79)%nat /\ Forall (fun c => 0 <= c < 256) kw).
+  (exists b, enc_keyword kw = Ok b) <-> ((1 <= length kw <= 79)%nat /\ Forall (fun c => 0 < c < 256) kw).
 Proof.
   split.
-  - intros [b H]. destruct (enc_keyword_ok kw b H) as [Hd [Hb [Hl _]]]. split; [exact Hl|].
-    rewrite <- Hd. unfold decode_latin1. rewrite map_id. exact Hb.
+  - intros [b H]. destruct (enc_keyword_ok kw b H) as [Hd [Hb [Hl [_ Hz]]]]. split; [exact Hl|].
+    assert (Hf : Forall (fun c => 0 <= c < 256) kw) by (rewrite <- Hd; unfold decode_latin1; rewrite map_id; exact Hb).
+    rewrite Forall_forall in *. intros c Hc. specialize (Hf c Hc). specialize (Hz c Hc). lia.
   - intros [Hl Hf]. unfold enc_keyword. destruct (encode_latin1 kw) as [raw|] eqn:E.
     + pose proof (encode_latin1_length kw raw E) as Hr.
       destruct (Nat.eqb_spec (length raw) 0) as [H0|H0]; [lia|]. destruct (Nat.ltb_spec 79 (length raw)) as [H1|H1]; [lia|].
-      cbn [orb]. eexists. reflexivity.
+      cbn [orb]. destruct (decode_encode_latin1 kw raw E) as [Hd _].
+      assert (Hz : has_zero raw = false).
+      { apply has_zero_false. unfold decode_latin1 in Hd. rewrite map_id in Hd. rewrite Hd. eapply Forall_impl; [|exact Hf]. cbn. lia. }
+      rewrite Hz. eexists. reflexivity.
     + exfalso. apply (proj1 (encode_latin1_refuses_exactly_non_latin1 kw)) in E. destruct E as [c [Hin Hc]].
       rewrite Forall_forall in Hf. specialize (Hf c Hin). lia.
 Qed.
 
 Theorem enc_keyword_never_panics kw p : enc_keyword kw <> Panic p.
-Proof. unfold enc_keyword. destruct (encode_latin1 kw); [destruct (_ || _)|]; discriminate. Qed.
+Proof. unfold enc_keyword. destruct (encode_latin1 kw) as [b|]; [destruct (_ || _); [|destruct (has_zero b)]|]; discriminate. Qed.
 
 (* ------------------------------------------------------------------ list helpers *)
 Lemma find0_app a r : Forall (fun b => b <> 0) a -> find0 (a ++ 0 :: r) = Some (length a).
@@ -59,13 +73,13 @@ Proof. unfold decode_latin1. rewrite map_id. intros ->. exact (fun H => H). Qed.
 
 (* ------------------------------------------------------------------ tEXt *)
 Theorem text_roundtrip s kw txt p :
-  enc_text kw txt = Ok p -> Forall (fun c => c <> 0) kw -> c_raw s = p -> zlen p <= budget s ->
+  enc_text kw txt = Ok p -> c_raw s = p -> zlen p <= budget s ->
   exists k t, parse_text s = (add_text (s <| budget := budget s - zlen p |>) (mk_text 0 k false [] [] t), Ok ENothing)
               /\ decode_latin1 k = kw /\ decode_latin1 t = txt.
 Proof.
   unfold enc_text. destruct (enc_keyword kw) as [k| |] eqn:Ek; try discriminate.
-  destruct (encode_latin1 txt) as [t|] eqn:Et; [|discriminate]. intro H; injection H as <-. intros Hnz Hr Hb.
-  destruct (enc_keyword_ok kw k Ek) as [Hd [Hbk [Hl Hlk]]]. destruct (decode_encode_latin1 txt t Et) as [Hdt _].
+  destruct (encode_latin1 txt) as [t|] eqn:Et; [|discriminate]. intro H; injection H as <-. intros Hr Hb.
+  destruct (enc_keyword_ok kw k Ek) as [Hd [Hbk [Hl [Hlk Hnz]]]]. destruct (decode_encode_latin1 txt t Et) as [Hdt _].
   exists k, t. split; [|split; assumption].
   unfold parse_text, reserve. rewrite Hr. destruct (Z.leb_spec (zlen (k ++ 0 :: t)) (budget s)) as [_|Hgt]; [|lia].
   rewrite c_raw_budget, Hr. rewrite split_keyword_exact; [reflexivity | lia | exact (latin1_nonzero kw k Hd Hnz)].
@@ -78,14 +92,14 @@ Variable I : list Z -> nat -> outcome (list Z) terr.
 Hypothesis inflate_compress : forall raw limit, bytes_ok raw -> (length raw <= limit)%nat -> I (K raw) limit = Ok raw.
 
 Theorem ztxt_roundtrip s kw txt p n :
-  enc_ztxt K kw (Uncompressed txt) = Ok p -> Forall (fun c => c <> 0) kw -> c_raw s = p -> zlen p <= budget s -> (length txt <= n)%nat ->
+  enc_ztxt K kw (Uncompressed txt) = Ok p -> c_raw s = p -> zlen p <= budget s -> (length txt <= n)%nat ->
   exists k z, parse_ztxt s = (add_text (s <| budget := budget s - zlen p |>) (mk_text 1 k true [] [] z), Ok ENothing)
               /\ decode_latin1 k = kw
               /\ decompress_text_with_limit I (Compressed z) n = Ok (Uncompressed txt).      (* ZTXtChunk::get_text / decompress *)
 Proof.
   unfold enc_ztxt. destruct (enc_keyword kw) as [k| |] eqn:Ek; try discriminate.
-  destruct (encode_latin1 txt) as [raw|] eqn:Et; [|discriminate]. intro H; injection H as <-. intros Hnz Hr Hb Hn.
-  destruct (enc_keyword_ok kw k Ek) as [Hd [Hbk [Hl Hlk]]]. destruct (decode_encode_latin1 txt raw Et) as [Hdt Hbr].
+  destruct (encode_latin1 txt) as [raw|] eqn:Et; [|discriminate]. intro H; injection H as <-. intros Hr Hb Hn.
+  destruct (enc_keyword_ok kw k Ek) as [Hd [Hbk [Hl [Hlk Hnz]]]]. destruct (decode_encode_latin1 txt raw Et) as [Hdt Hbr].
   exists k, (K raw). split; [|split; [assumption|]].
   - unfold parse_ztxt, reserve. rewrite Hr. destruct (Z.leb_spec (zlen (k ++ 0 :: 0 :: K raw)) (budget s)) as [_|Hgt]; [|lia].
     rewrite c_raw_budget, Hr. rewrite split_keyword_exact; [reflexivity | lia | exact (latin1_nonzero kw k Hd Hnz)].
@@ -101,7 +115,6 @@ Qed.
 
 Theorem itxt_roundtrip s kw c lang trans txt p :
   enc_itxt K kw c lang trans txt = Ok p ->
-  Forall (fun b => b <> 0) kw -> Forall (fun b => b <> 0) lang -> Forall (fun b => b <> 0) trans ->
   utf8_valid trans = true -> (c = false -> utf8_valid txt = true) ->
   c_raw s = p -> zlen p <= budget s ->
   exists k, parse_itxt utf8_valid s =
@@ -109,9 +122,12 @@ Theorem itxt_roundtrip s kw c lang trans txt p :
             /\ decode_latin1 k = kw.
 Proof.
   unfold enc_itxt. destruct (enc_keyword kw) as [k| |] eqn:Ek; try discriminate.
-  destruct (ascii_cps lang) eqn:Ea; cbn [negb]; [|discriminate]. intro H; injection H as <-.
-  intros Hnk Hnl Hnt Hut Hux Hr Hb.
-  destruct (enc_keyword_ok kw k Ek) as [Hd [Hbk [Hl Hlk]]].
+  destruct (ascii_cps lang) eqn:Ea; cbn [negb orb]; [|discriminate].
+  destruct (has_zero lang) eqn:Zl; [discriminate|]. destruct (has_zero trans) eqn:Zt; [discriminate|].
+  apply has_zero_false in Zl. apply has_zero_false in Zt. rename Zl into Hnl. rename Zt into Hnt.
+  intro H; injection H as <-.
+  intros Hut Hux Hr Hb.
+  destruct (enc_keyword_ok kw k Ek) as [Hd [Hbk [Hl [Hlk Hnk]]]].
   exists k. split; [|assumption].
   unfold parse_itxt, reserve. rewrite Hr.
   remember (if c then K txt else txt) as body eqn:Ebody.
@@ -134,6 +150,17 @@ Proof.
   { unfold ascii_cps. apply not_true_is_false. intro Ht. rewrite forallb_forall in Ht. rewrite Exists_exists in Hex.
     destruct Hex as [ch [Hin Hch]]. specialize (Ht ch Hin). lia. }
   rewrite E. discriminate.
+Qed.
+
+(* a NUL in the language tag or in the translated keyword is refused (each of them ends at its first zero byte) *)
+Theorem itxt_nul_refused kw c lang trans txt :
+  In 0 lang \/ In 0 trans -> forall p, enc_itxt K kw c lang trans txt <> Ok p.
+Proof.
+  intros Hin p. unfold enc_itxt. destruct (enc_keyword kw); try discriminate.
+  assert (Z0 : forall l, In 0 l -> has_zero l = true) by (intros l Hl; unfold has_zero; apply existsb_exists; exists 0; split; [exact Hl | reflexivity]).
+  destruct Hin as [H|H].
+  - rewrite (Z0 lang H), orb_true_r. discriminate.
+  - destruct (negb (ascii_cps lang) || has_zero lang); [discriminate|]. rewrite (Z0 trans H). discriminate.
 Qed.
 
 (* a bad keyword is refused by all three kinds *)
